@@ -5,6 +5,7 @@ import os
 import re
 import resource
 import shutil
+import signal
 import subprocess
 import time
 
@@ -21,14 +22,34 @@ def _limits():
     resource.setrlimit(resource.RLIMIT_AS, (MEM_KB * 1024, MEM_KB * 1024))
 
 
-def run(cmd, timeout, cwd=None):
+def run(cmd, timeout, cwd=None, tmpdir=None):
+    """runs cmd in its own process group (an external SAT solver started by cbmc dies with it on a timeout) with TMPDIR pointing
+    into the build directory of the run (cbmc's multi-gigabyte external-sat*.cnf files are removed with it)"""
     t0 = time.time()
+    env = dict(os.environ)
+    if tmpdir:
+        os.makedirs(tmpdir, exist_ok=True)
+        env["TMPDIR"] = tmpdir
+    p = subprocess.Popen(cmd, stdout=subprocess.PIPE, stderr=subprocess.PIPE, cwd=cwd, preexec_fn=_limits, text=True, errors="replace",
+                         env=env, start_new_session=True)
     try:
-        p = subprocess.run(cmd, stdout=subprocess.PIPE, stderr=subprocess.PIPE, timeout=timeout,
-                           cwd=cwd, preexec_fn=_limits, text=True, errors="replace")
-        return p.returncode, p.stdout, p.stderr, time.time() - t0
-    except subprocess.TimeoutExpired as e:
-        return -9, (e.stdout or b"").decode(errors="replace") if isinstance(e.stdout, bytes) else (e.stdout or ""), "TIMEOUT", time.time() - t0
+        out, err = p.communicate(timeout=timeout)
+        return p.returncode, out, err, time.time() - t0
+    except subprocess.TimeoutExpired:
+        try:
+            os.killpg(p.pid, signal.SIGKILL)
+        except OSError:
+            pass
+        out, err = p.communicate()
+        return -9, out or "", "TIMEOUT", time.time() - t0
+    finally:
+        if tmpdir:
+            for f in os.listdir(tmpdir):
+                if f.startswith("external-sat"):
+                    try:
+                        os.remove(os.path.join(tmpdir, f))
+                    except OSError:
+                        pass
 
 
 class Job:
@@ -111,7 +132,7 @@ def run_job(job, bdir, backends=("cadical",), timeout=300, trace=False, incdirs=
         if trace:
             cmd += ["--trace"]
         job.cmds.append(" ".join(cmd))
-        rc, out, err, secs = run(cmd, max(timeout, getattr(job, "timeout", 0) or 0))
+        rc, out, err, secs = run(cmd, max(timeout, getattr(job, "timeout", 0) or 0), tmpdir=os.path.join(bdir, "tmp"))
         job.backend = backend
         if rc == -9:
             job.status, job.reason = "undecided", "timeout after %ds on %s" % (timeout, backend)
